@@ -175,7 +175,6 @@ func OutputSplitApplications(
 	basePath string,
 	fileName string,
 	fs afero.Fs) error {
-	var err error = nil
 	for appName, app := range module.Apps {
 		fd, err := CreatePathForApplication(appName, basePath, app, fileName, fs)
 		if err != nil {
@@ -196,11 +195,13 @@ func OutputSplitApplications(
 				return GeneratePBBinaryMessageFile(app, outputFilePath, fs)
 			}
 		}
+		// the error of the encoder is the error of the command: a file that could not be written must not
+		// pass for a written one (the `err` of this loop used to shadow the one that was returned)
 		err = writer()
 		fd.Close()
 		if err != nil {
-			break
+			return err
 		}
 	}
-	return err
+	return nil
 }
